@@ -72,6 +72,10 @@ def cases(rng, tier):
     for _ in range(40 if not th else 400):
         m = rng.randrange(6, 11); n = m + rng.randrange(1, 3)
         add('tall-tiny-entries-%s' % ('8-9' if m < 9 else '10+'), [[rng.randrange(-3, 4) for _ in range(m)] for _ in range(n)])
+    edge = [s_ * (2 ** e_ + d_) for e_ in (31, 32, 63, 64, 127) for d_ in (-1, 0, 1) for s_ in (1, -1)]
+    for _ in range(60 if not th else 600):
+        m = rng.randrange(1, 4); n = m + rng.randrange(0, 3)
+        add('word-boundary-entries', [[rng.choice(edge) if rng.random() < 0.5 else rng.randrange(-3, 4) for _ in range(m)] for _ in range(n)])
     # separate ops on their own
     for tag, a in H.structured_mats(rng, 150 if not th else 1500, 6, [2, 8, 64]):
         out.append(Case('hnf_kernel', line('hnf_kernel', a), oracle=H.o_kernel(a), always_oracle=True, nontrivial=has_kernel(a), tag='kernel-' + tag))
